@@ -390,6 +390,8 @@ type vHist struct {
 	linked     map[string]Digest         // lower-cased name -> digest of the last acknowledged Link (cleared by Unlink / refused Link)
 	linkedWhy  map[string]string         // classification of that Link by the driver's own observations
 	acked      map[Digest]bool           // a non-empty store of d was acknowledged and no later Put/chunk of d failed
+	truth      map[Digest][]byte         // the true content of a digest, where an op of the history carries it
+	chunkDeviates map[Digest]bool        // some Chunker.Put on d left a file other than vChunkExpect's
 	handTwins  map[string]bool           // lower-cased manifest path -> an `edit` made a second spelling of it exist (by design the first in glob order wins)
 }
 
@@ -533,7 +535,7 @@ func (h *vHist) checkAllPresent(step int, op vOp) {
 		b, _ := h.blobBytes(d)
 		if vDigestOf(b) != d {
 			h.out.L2("present-wrong-content", h.caseLine,
-				fmt.Sprintf("last-writer=%s step=%d op=%s digest=%s size=%d file=%s", h.lastWriter[d], step, op.kind, d.Short(), e.Size, zzverif.Hex(b)))
+				fmt.Sprintf("last-writer=%s as-designed=%v step=%d op=%s digest=%s size=%d file=%s", h.lastWriter[d], !h.chunkDeviates[d], step, op.kind, d.Short(), e.Size, zzverif.Hex(b)))
 		}
 	}
 }
@@ -559,6 +561,69 @@ func (h *vHist) checkAcked(step int, op vOp) {
 	}
 }
 
+// vChunkExpect is what the DOCUMENTED chunk writer leaves in the file (finding F10-cache is about exactly this
+// algorithm): a file that already has the declared size is not touched; otherwise the stream, cut at the chunk's
+// length, is written in place at its offset piece by piece, except that the piece completing the chunk is written only
+// if the digest of the whole chunk matches; nothing is undone on failure, nothing is truncated, gaps read as zeros.
+// The real file after every Chunker.Put is compared with it: a chunk writer that accepts a corrupt chunk, writes at a
+// wrong offset or touches other bytes DEVIATES (reported with the input), and only wrong content that this algorithm
+// produces is attributed to F10-cache.
+func vChunkExpect(before []byte, exists bool, o vOp) []byte {
+	if exists && int64(len(before)) == o.size {
+		return before
+	}
+	f := append([]byte(nil), before...)
+	n := o.stop - o.start + 1
+	var seen []byte
+	remaining := n
+	for _, c := range o.s.chunks {
+		if remaining <= 0 {
+			break
+		}
+		if int64(len(c)) >= remaining {
+			c = c[:remaining]
+		}
+		remaining -= int64(len(c))
+		if len(c) == 0 {
+			continue
+		}
+		all := append(append([]byte(nil), seen...), c...)
+		if int64(len(all)) == n && vDigestOf(all) != o.cd {
+			break
+		}
+		off := int(o.start) + len(seen)
+		for len(f) < off+len(c) {
+			f = append(f, 0)
+		}
+		copy(f[off:], c)
+		seen = all
+	}
+	return f
+}
+
+// vExplained: every byte of b that differs from the true content is a zero, a byte of the file the write started
+// from, or a byte the chunk's own source delivers at that offset (crash phase: all a cut of the algorithm can leave)
+func vExplained(b, truth, init []byte, o vOp) bool {
+	src := bytes.Join(o.s.chunks, nil)
+	for j := range b {
+		switch {
+		case j < len(truth) && b[j] == truth[j], b[j] == 0, j < len(init) && b[j] == init[j]:
+		case j >= int(o.start) && j-int(o.start) < len(src) && src[j-int(o.start)] == b[j]:
+		default:
+			return false
+		}
+	}
+	return true
+}
+
+// f10Holey: d's file was last changed by Chunker.Put, does not hash to d, and every Chunker.Put on it did exactly what the
+// documented in-place algorithm does (vChunkExpect): that is what finding F10-cache explains.  Only such a file is
+// exempt from the store-retrievable / acknowledged-blob monitors.
+func (h *vHist) f10Holey(d Digest) bool {
+	b, ok := h.blobBytes(d)
+	return ok && h.lastWriter[d] == "chunk" && vDigestOf(b) != d && !h.chunkDeviates[d]
+}
+
 func (h *vHist) noteStored(d Digest, size int64) {
 	if h.stored[d] == nil {
 		h.stored[d] = map[int64]bool{}
@@ -575,6 +640,11 @@ func (h *vHist) run(ops []vOp) (results []string, keys map[Digest]bool) {
 			d := o.d
 			target = &d
 			keys[d] = true
+		}
+		for _, cand := range [][]byte{o.data, bytes.Join(o.s.chunks, nil)} {
+			if cand != nil {
+				h.truth[vDigestOf(cand)] = cand
+			}
 		}
 		var before []byte
 		var beforeOK bool
@@ -684,16 +754,32 @@ func (h *vHist) run(ops []vOp) (results []string, keys map[Digest]bool) {
 
 		switch o.kind {
 		case "put":
+			if tr, known := h.truth[o.d]; res == "ok" && known && o.size > 0 && int64(len(tr)) != o.size {
+				// the caller stored d under a size that is NOT the size of the content hashing to d, and was answered ok:
+				// only the same-size shortcut can do that (a leftover file of exactly that size — a partial or over-long
+				// chunk file — is trusted without being read).  No content of that digest has that size, so "present with
+				// the size it was stored under" is wrong by construction: its own class (finding F30), kept apart from
+				// F10's holes, and from everything the monitors below say about disciplined stores.
+				how := "no-file-of-that-size-before"
+				if beforeOK && int64(len(before)) == o.size {
+					how = "same-size-shortcut"
+				}
+				h.out.Count("branch_put_ok_under_wrong_size")
+				h.out.L2("store-ok-under-wrong-size", h.caseLine, fmt.Sprintf("%s size=%d true-size=%d last-writer=%s step=%d digest=%s file=%s",
+					how, o.size, len(tr), h.lastWriter[o.d], i, o.d.Short(), zzverif.Hex(before)))
+				h.acked[o.d] = false
+				break
+			}
 			if res == "ok" {
 				h.noteStored(o.d, o.size)
 				// (B) a successful store makes the blob retrievable; a full-size holey file left by Chunker.Put is
 				// answered from the size shortcut: that is finding F10-cache, reported by checkAllPresent
-				if h.lastWriter[o.d] != "chunk" {
+				if !h.f10Holey(o.d) {
 					h.checkStored(i, "put", o.d, o.size)
 				}
 				// Put(d, _, 0) = ok truncates a longer file by design (TestPutZero); a Put answered from the size
 				// shortcut over a holey chunked file acknowledges nothing new (F10-cache)
-				h.acked[o.d] = o.size > 0 && h.lastWriter[o.d] != "chunk"
+				h.acked[o.d] = o.size > 0 && !h.f10Holey(o.d)
 			} else {
 				h.acked[o.d] = false // a refused Put legitimately truncates the file
 			}
@@ -744,6 +830,16 @@ func (h *vHist) run(ops []vOp) (results []string, keys map[Digest]bool) {
 			}
 		case "chunk":
 			h.acked[o.d] = false
+			if !strings.HasPrefix(res, "panic:") {
+				h.out.Count("l2_chunk_twin_checked")
+				exp := vChunkExpect(before, beforeOK, o)
+				now, nowOK := h.blobBytes(o.d)
+				if !nowOK || !bytes.Equal(now, exp) {
+					h.chunkDeviates[o.d] = true
+					h.out.L2("chunk-write-deviates", h.caseLine, fmt.Sprintf("step=%d res=%s chunk=[%d,%d] size=%d before=%s expected=%s file=%s",
+						i, res, o.start, o.stop, o.size, zzverif.Hex(before), zzverif.Hex(exp), zzverif.Hex(now)))
+				}
+			}
 			if res == "ok" {
 				h.noteStored(o.d, o.size)
 			}
@@ -828,7 +924,7 @@ func (h *vHist) run(ops []vOp) (results []string, keys map[Digest]bool) {
 					h.out.L2("resolve-not-hash-of-file", h.caseLine, fmt.Sprintf("step=%d name=%s", i, o.name))
 				}
 				h.noteStored(*dg, int64(len(manBefore)))
-				if h.lastWriter[*dg] != "chunk" {
+				if !h.f10Holey(*dg) {
 					h.checkStored(i, "resolve", *dg, int64(len(manBefore)))
 				}
 				// Link(name, d) = ok earlier, nothing touched the name since ⇒ Resolve(name) = d = sha256(bytes linked)
@@ -1038,7 +1134,7 @@ func vGenHist(r *zzverif.Rng) []vOp {
 			ops = append(ops, vOp{kind: "put", d: d, size: int64(len(c)), s: vMkScript(r, c, zzverif.Pick(r, []string{"short", "flip", "errk", "long", "other"}), false)})
 		} else if len(c) >= 2 { // a low chunk only: a short file, like a writer that died mid-copy
 			b := int64(r.Intn(len(c) - 1))
-			ops = append(ops, vOp{kind: "chunk", d: d, size: int64(len(c)), start: 0, stop: b, cd: vDigestOf(c[:b+1]), s: vMkScript(r, c[:b+1], "exact", false)})
+			ops = append(ops, vOp{kind: "chunk", d: d, size: int64(len(c)), start: 0, stop: b, cd: vDigestOf(c[:b+1]), data: c, s: vMkScript(r, c[:b+1], "exact", false)})
 		}
 		ops = append(ops, vOp{kind: "import", size: int64(len(c)), s: vMkScript(r, c, zzverif.Pick(r, []string{"exact", "exact1"}), false)},
 			vOp{kind: "get", d: d}, vOp{kind: "link", name: name, d: d}, vOp{kind: "resolve", name: name})
@@ -1118,7 +1214,7 @@ func vGenHist(r *zzverif.Rng) []vOp {
 			if r.Chance(1, 10) {
 				cd = bogus
 			}
-			ops = append(ops, vOp{kind: "chunk", d: d, size: size, start: a, stop: b, cd: cd,
+			ops = append(ops, vOp{kind: "chunk", d: d, size: size, start: a, stop: b, cd: cd, data: c,
 				s: vMkScript(r, part, zzverif.Pick(r, []string{"exact", "exact", "exact", "exact1", "short", "long", "flip", "errk"}), true)})
 		}
 	}
@@ -1154,7 +1250,7 @@ func vRunHist(t *testing.T, out *zzverif.Out, base string, idx int, caseLine str
 		t.Fatal(err)
 	}
 	defer os.RemoveAll(dir)
-	h := &vHist{t: t, out: out, c: c, dir: dir, caseLine: caseLine, stored: map[Digest]map[int64]bool{}, lastWriter: map[Digest]string{}, acked: map[Digest]bool{}, linked: map[string]Digest{}, linkedWhy: map[string]string{}, handTwins: map[string]bool{}}
+	h := &vHist{t: t, out: out, c: c, dir: dir, caseLine: caseLine, stored: map[Digest]map[int64]bool{}, lastWriter: map[Digest]string{}, acked: map[Digest]bool{}, linked: map[string]Digest{}, linkedWhy: map[string]string{}, handTwins: map[string]bool{}, truth: map[Digest][]byte{}, chunkDeviates: map[Digest]bool{}}
 	results, keys := h.run(ops)
 	out.Case(vHistLine(ops), strings.Join(results, ";")+" | "+h.dump(keys))
 	out.Count("cases")
@@ -1181,6 +1277,7 @@ type vCrashCase struct {
 	op      vOp
 	content []byte // the true content of the target digest (put / chunk)
 	blob    string // link only: state of the blob file (absent | - | hex)
+	via     string // "resolve": the Put is the PutBytes inside Resolve(name) of a prepared manifest holding `content`
 }
 
 const vCrashLinkName = "h/n/m:t"
@@ -1251,6 +1348,9 @@ func TestVerifC08Child(t *testing.T) {
 	if err != nil {
 		t.Fatal(err)
 	}
+	if os.Getenv("VERIF_C08_VIA") == "resolve" {
+		o = vOp{kind: "resolve", name: vCrashLinkName} // its PutBytes is the Put the parent enumerates
+	}
 	res, _ := vExec(c, o)
 	os.WriteFile(filepath.Join(dir, "result.txt"), []byte(res), 0o666)
 }
@@ -1289,7 +1389,13 @@ func vCrashRun(t *testing.T, dir string, cc vCrashCase, c *DiskCache, kind strin
 	}
 	tmp := filepath.Join(dir, "tmp")
 	os.MkdirAll(tmp, 0o777)
-	cmd.Env = append(os.Environ(), "VERIF_C08_CHILD="+cc.spec(), "VERIF_C08_DIR="+dir,
+	if cc.via == "resolve" {
+		os.MkdirAll(filepath.Dir(vCrashLinkPath(dir)), 0o777)
+		if err := os.WriteFile(vCrashLinkPath(dir), cc.content, 0o666); err != nil {
+			t.Fatal(err)
+		}
+	}
+	cmd.Env = append(os.Environ(), "VERIF_C08_CHILD="+cc.spec(), "VERIF_C08_DIR="+dir, "VERIF_C08_VIA="+cc.via,
 		"VERIF_C08_DIGEST="+vHexD(cc.target()), "TMPDIR="+tmp)
 	outb, err := cmd.CombinedOutput()
 	if err == nil {
@@ -1321,6 +1427,8 @@ func vGenCrash(r *zzverif.Rng, force string) vCrashCase {
 	}
 	x := r.Intn(10)
 	switch force {
+	case "resolve": // Resolve(name) of a hand-written manifest: PutBytes(sha256(content), content) from any prior blob state
+		return vCrashCase{content: content, init: init, via: "resolve", op: vOp{kind: "put", d: d, size: int64(n), s: vScript{chunks: [][]byte{content}, end: "eof", kind: "exact"}}}
 	case "put":
 		x = 0
 	case "import":
@@ -1359,7 +1467,11 @@ func vRunCrash(t *testing.T, out *zzverif.Out, base string, caseLine string, cc 
 	d := cc.target()
 	size := cc.op.size
 	out.Count("cases")
-	out.Count("crash_cases_" + cc.op.kind)
+	if cc.via != "" {
+		out.Count("crash_cases_" + cc.via)
+	} else {
+		out.Count("crash_cases_" + cc.op.kind)
+	}
 	if cc.op.kind == "put" || cc.op.kind == "chunk" {
 		// the REAL syscall trace of the store: exact L1 against the model's effect list, and the shape predicate
 		c := vPrepare(t, dir, d, cc.init)
@@ -1403,7 +1515,11 @@ func vRunCrash(t *testing.T, out *zzverif.Out, base string, caseLine string, cc 
 				if vDigestOf(b) != d {
 					detail := "plain"
 					if cc.op.kind == "chunk" {
-						detail = "last-writer=chunk"
+						init := []byte(nil)
+						if cc.init != "absent" {
+							init = zzverif.Unhex(cc.init)
+						}
+						detail = fmt.Sprintf("last-writer=chunk as-designed=%v", vExplained(b, cc.content, init, cc.op))
 					}
 					out.L2("crash-present-wrong-content", line, fmt.Sprintf("%s outcome=%s file=%s", detail, outcome, zzverif.Hex(b)))
 				}
@@ -1870,6 +1986,37 @@ func vRunConc(t *testing.T, out *zzverif.Out, base string, caseLine string, cc *
 	if !good {
 		who = "bad-cowriter"
 	}
+	// tag of a failure AT THE FAILING INSTANT (harness review): finding F9 explains wrong content only if a faulty
+	// writer has already run (>= 1 step) and every wrong byte is a zero (the hole its Truncate(0) leaves when a good
+	// writer goes on writing further up) or a byte that faulty writer's own source delivers at that offset
+	tag := func(b []byte) string {
+		if good {
+			return "all-good"
+		}
+		var bad [][]byte
+		for i, s := range cc.scripts {
+			isGood := (s.kind == "exact" || s.kind == "exact1") || (s.kind == "" && s.end == "eof" && bytes.Equal(bytes.Join(s.chunks, nil), cc.content))
+			if !isGood && state[i] != 0 {
+				bad = append(bad, bytes.Join(s.chunks, nil))
+			}
+		}
+		if len(bad) == 0 {
+			return "bad-cowriter-idle"
+		}
+		for j := range b {
+			if (j < len(cc.content) && b[j] == cc.content[j]) || b[j] == 0 {
+				continue
+			}
+			ok := false
+			for _, data := range bad {
+				ok = ok || (j < len(data) && data[j] == b[j])
+			}
+			if !ok {
+				return "bad-cowriter-unexplained"
+			}
+		}
+		return "bad-cowriter-active"
+	}
 	wait := func(i int) {
 		select {
 		case <-gs[i].arrived:
@@ -1930,9 +2077,9 @@ func vRunConc(t *testing.T, out *zzverif.Out, base string, caseLine string, cc *
 					for i := len(b) - 1; i >= 0 && b[i] == 0; i-- {
 						zeros++
 					}
-					out.L2("concurrent-present-wrong-content", caseLine, fmt.Sprintf("%s after-event=%d(%s) size=%d zero-tail=%d", who, step, ev, size, zeros))
+					out.L2("concurrent-present-wrong-content", caseLine, fmt.Sprintf("%s after-event=%d(%s) size=%d zero-tail=%d", tag(nil), step, ev, size, zeros))
 				} else {
-					out.L2("concurrent-present-wrong-content", caseLine+" :: "+cc.line(), fmt.Sprintf("%s after-event=%d(%s) file=%s", who, step, ev, zzverif.Hex(b)))
+					out.L2("concurrent-present-wrong-content", caseLine+" :: "+cc.line(), fmt.Sprintf("%s after-event=%d(%s) file=%s", tag(b), step, ev, zzverif.Hex(b)))
 				}
 			}
 		}
@@ -1958,9 +2105,9 @@ func vRunConc(t *testing.T, out *zzverif.Out, base string, caseLine string, cc *
 		b, err := os.ReadFile(c.GetFile(d))
 		if err != nil || !bytes.Equal(b, cc.content) {
 			if cc.big {
-				out.L2("concurrent-acked-blob-lost", caseLine, fmt.Sprintf("%s final-len=%d results=%s", who, len(b), strings.Join(results, ",")))
+				out.L2("concurrent-acked-blob-lost", caseLine, fmt.Sprintf("%s final-len=%d results=%s", tag(nil), len(b), strings.Join(results, ",")))
 			} else {
-				out.L2("concurrent-acked-blob-lost", caseLine+" :: "+cc.line(), fmt.Sprintf("%s final=%s results=%s", who, vState(c.GetFile(d)), strings.Join(results, ",")))
+				out.L2("concurrent-acked-blob-lost", caseLine+" :: "+cc.line(), fmt.Sprintf("%s final=%s results=%s", tag(b), vState(c.GetFile(d)), strings.Join(results, ",")))
 			}
 		}
 	}
@@ -2215,7 +2362,7 @@ func TestVerifC08(t *testing.T) {
 				continue
 			}
 			// every ninth case is a complete Import (the only store with a rename), every ninth a chunk write
-			force := map[int]string{1: "import", 4: "chunk", 7: "put"}[i%9]
+			force := map[int]string{0: "resolve", 1: "import", 4: "chunk", 7: "put"}[i%9]
 			cc := vGenCrash(zzverif.NewRng(cs), force)
 			vRunCrash(t, out, base, fmt.Sprintf("crash seed=%d force=%s", cs, force), cc)
 		}
